@@ -78,6 +78,10 @@ func validateRun(cmd *cobra.Command, args []string) error {
 	// If single argument that looks like inline SQL (not a file), validate it directly
 	if len(args) == 1 {
 		if _, err := os.Stat(args[0]); err != nil && looksLikeSQL(args[0]) {
+			if validateOutputFormat == OutputFormatJSON || validateOutputFormat == OutputFormatSARIF {
+				// Machine-readable reports come from the same code as for stdin input
+				return validateContent(cmd, []byte(args[0]), "inline")
+			}
 			return validateInlineSQL(cmd, args[0])
 		}
 	}
@@ -182,6 +186,12 @@ func validateFromStdin(cmd *cobra.Command) error {
 		return fmt.Errorf("stdin validation failed: %w", err)
 	}
 
+	return validateContent(cmd, content, "stdin")
+}
+
+// validateContent validates SQL text that did not come from a file (stdin or
+// an inline argument); label names the input in JSON reports.
+func validateContent(cmd *cobra.Command, content []byte, label string) error {
 	// Create a temporary file to leverage existing validation logic
 	tmpFile, err := os.CreateTemp("", "gosqlx-stdin-*.sql")
 	if err != nil {
@@ -248,7 +258,7 @@ func validateFromStdin(cmd *cobra.Command) error {
 			fmt.Fprintf(cmd.OutOrStdout(), "SARIF output written to %s\n", validateOutputFile)
 		}
 	case OutputFormatJSON:
-		jsonData, err := output.FormatValidationJSON(result, []string{"stdin"}, validateStats)
+		jsonData, err := output.FormatValidationJSON(result, []string{label}, validateStats)
 		if err != nil {
 			return fmt.Errorf("failed to generate JSON output: %w", err)
 		}
